@@ -427,6 +427,16 @@ func (ex *Exec) specCall(st *State, e *ast.CallExpr) []*Val {
 			return one(&Val{T: tBool, Term: and(eq(ex.sLen(a.Term), ex.sLen(b.Term)),
 				forall([]*Term{k}, implies(and(ge(k, intLit(0)), lt(k, ex.sLen(a.Term))),
 					eq(ex.sliceElem(st, a.Term, k, tByte), ex.sliceElem(st, b.Term, k, tByte)))))})
+		case "unchanged":
+			// unchanged(s): every byte of s (by absolute position in its array,
+			// so that reads through any sub-slice match) has its entry value
+			a := ex.expr(st, e.Args[0])
+			k := mk("a?", SInt)
+			now := sel(ex.mem(st, tByte), ex.sRef(a.Term))
+			was := sel(ex.mem(ex.oldView(st), tByte), ex.sRef(a.Term))
+			return one(&Val{T: tBool, Term: forall([]*Term{k},
+				implies(and(ge(k, ex.sOff(a.Term)), lt(k, add(ex.sOff(a.Term), ex.sLen(a.Term)))),
+					eq(sel(now, k), sel(was, k))), []*Term{sel(now, k)})})
 		case "fresh":
 			// fresh(x): reference allocated during this call
 			x := ex.expr(st, e.Args[0])
